@@ -10,7 +10,13 @@ every expression.  Each expression is realised as source and pushed through the 
   ast563 / sig563   the same in a module with `from __future__ import annotations`
 and the recorded observations are adjudicated by TLC against spec/trace/AnnotationsTrace.tla.
 
-Part B (def headers): spec/DefHeaders.tla, see observe_headers below.
+Part B (def headers): spec/DefHeaders.tla.  TLC enumerates def headers (all parameter kinds, defaults,
+annotations, return, async, PEP 563) with a family of calls; each header is realised as a module-level def
+and as a nested def in a defining module plus an importing module, and the def-derived signature, the
+runtime signature, CPython's inspect.signature and every call's judgement in the three contexts are
+adjudicated by TLC against spec/trace/DefHeadersTrace.tla.
+
+No hook in /repo is needed: every observation is the return value of a public entry point.
 """
 from __future__ import annotations
 
@@ -605,7 +611,7 @@ def run(check: core.Check) -> None:
         res = core.require_ok(_tlc("AnnotationsEmit", "Annotations.thorough.cfg", timeout=3000), "Annotations exhaustive")
         check.add_tlc("exhaustive+emit:Annotations.thorough.cfg", res)
         cases = core.emitted_json(res)
-        limit = 45000
+        limit = 38000
     if quick:
         core.require_coverage(res, ["PushLeaf", "ApplyUnary", "ApplyBinary", "ApplyTop", "Finish"], "Annotations")
     if not cases:
@@ -653,12 +659,12 @@ def run(check: core.Check) -> None:
     if not hcases:
         raise core.MachineryError("TLC emitted no def headers")
     check.cov["model_cases_headers"] = len(hcases)
-    hlimit = 300 if quick else 1500
+    hlimit = 300 if quick else 1200
     exhaustive_h = len(hcases) <= hlimit
     if not exhaustive_h:
         hcases = rnd.sample(hcases, hlimit)
     ch = judge_headers(check, hcases, "tlc-exhaustive", "DefHeadersTrace.cfg" if quick else "DefHeadersTraceBig.cfg")
-    hnum = 4 if quick else 50
+    hnum = 4 if quick else 40
     hsim = core.require_ok(
         _tlc("DefHeadersEmit", "DefHeaders.sim.cfg", workers=1, simulate=f"num={hnum}", depth=8, seed=check.seed + 17, timeout=1800),
         "DefHeaders simulate",
